@@ -3,7 +3,7 @@ from vlib.core import Case, hx
 
 ID = "C05"
 N = 0xFFFFFFFFFFFFFFFFFFFFFFFFFFFFFFFEBAAEDCE6AF48A03BBFD25E8CD0364141
-RULE = ("op acct.sign <key> <digest> (signed twice in-process: determinism): keys 1,2,n-2,n-1,random; digests 0,1,n-1,n,n+1,2^256-1,random; "
+RULE = ("op acct.sign <key> <digest> (in one process: try_sign twice, sign, another key signing the same digest, this key signing another digest, then sign/try_sign again — all results for (key, digest) must be equal and the other key's two results too): keys 1,2,n-2,n-1,random; digests 0,1,n-1,n,n+1,2^256-1,random; "
         "non-trivial = distinct (key, digest); the run must contain both parities and both s halves (counted via extra check); "
         "judge = independent ECDSA verify + public-key recovery (Spec.Ecdsa) and 1<=r<n, 1<=s<=n/2; equality with the model's RFC 6979 signature")
 EXHAUSTIVE_SWEEPS = {"quick": ["5 boundary keys x 8 boundary digests"], "thorough": ["5 boundary keys x 8 boundary digests"]}
